@@ -34,6 +34,9 @@ HOSTILE = ["x ", " x", "x ", " x", "x\t", "x\n", "x\r", "a'b", 'a"b', "a\\b",
            # text that means something to a formatting / templating step on the way to the printed line
            "a{}b", "{}", "%s", "{0}", "$1", "\\0"]
 
+# names at the limit of a directory entry (255 bytes on every file system here): a temporary sibling `name.<24 chars>`
+# does not fit next to the longest ones
+LONG_NAMES = ["L" * 230, "L" * 231, "L" * 254, "L" * 255, "\u20ac" * 85, "\u20ac" * 76 + "abc"]
 
 def structural_trees():
     t = {}
@@ -155,7 +158,7 @@ def hostile_tree(name):
         near.add(name[:m.start()] + m.group(1) + name[m.end():])
         near.add(name[:m.start()] + m.group(2) + name[m.end():])
     for i, nn in enumerate(sorted(near)):
-        if nn and nn != name and "/" not in nn and nn not in (".", ".."):
+        if nn and nn != name and "/" not in nn and nn not in (".", "..") and len(C.b(nn)) <= 255:
             entries.append({"p": "d/" + nn, "k": "file", "c": lit("decoy%d" % i)})
     return (["d", "d2"], [], entries)
 
@@ -178,6 +181,7 @@ def cases(tier, seed):
     trees = [("s:" + k, v) for k, v in structural_trees().items()]
     names = HOSTILE[:14] if quick else HOSTILE
     trees += [("n:%d" % i, hostile_tree(n)) for i, n in enumerate(names)]
+    trees += [("long:%d" % len(C.b(n)) + ("" if n[0] == "L" else "mb"), hostile_tree(n)) for n in LONG_NAMES]
     idx = 0
     for tname, (roots, gargs, entries) in trees:
         for fmt in ("default", "json"):
